@@ -1068,12 +1068,205 @@ Proof.
       unfold add_kind, upd'. destruct (can_add [] v); [|split; [reflexivity | discriminate]].
       split; [reflexivity|]. intros n' Hn'. inversion Hn'; subst n'.
       match goal with |- context [set_catch V _ ?cc] => set (c' := cc) end.
-      assert (Hv' : t_vals c' <> []) by (cbn [c' t_vals app]; discriminate).
+      assert (Hv' : t_vals c' <> []) by (unfold c'; cbn [with_value t_vals]; discriminate).
       assert (Hk' : str_eqb (last_key (t_keys c')) (t_path c') = true).
-      { unfold c'. cbn [t_keys t_path]. rewrite last_key_snoc. apply str_eqb_refl. }
+      { unfold c'. rewrite with_value_set_keys. cbn [with_value leaf t_keys t_path]. rewrite last_key_snoc. apply str_eqb_refl. }
       destruct (lift_catch V (child_created V n) c' (wfb_child_created V n Hwf) eq_refl Hv' Hk' (child_created_flag V n)) as [Hw' Hu'].
       rewrite abs_child_created in Hu'.
       split; [exact Hw'|]. split; [destruct n; reflexivity | exact Hu'].
 Qed.
 
+(** *** a static token *)
+Lemma is_special_not_slash c : is_special c = true -> Ascii.eqb c ch_slash = false.
+Proof.
+  unfold is_special. intro H. destruct (Ascii.eqb c ch_slash) eqn:E; [|reflexivity].
+  apply Ascii.eqb_eq in E. subst c. discriminate.
+Qed.
+
+Lemma on_parse_on_parse a b (o : option (pat * list str)) :
+  on_parse (app a) (fun ks => ks) (on_parse (app b) (fun ks => ks) o) = on_parse (app (a ++ b)) (fun ks => ks) o.
+Proof. destruct o as [[p ks]|]; [|reflexivity]. cbn [on_parse]. rewrite app_assoc. reflexivity. Qed.
+
+Lemma add_spec_cons_static f (n : tree) token rest0 wk ins :
+  spec_at f -> wfb n = true -> length rest0 < f ->
+  Ascii.eqb token ch_slash = false ->
+  (negb ins && Ascii.eqb token ch_star) = false -> (negb ins && Ascii.eqb token ch_colon) = false ->
+  add_spec (S f) n (token :: rest0) wk ins.
+Proof.
+  intros IH Hwf Hlen Esl Estar Ecolon. unfold add_spec. rewrite add_node_cons. cbv zeta.
+  rewrite Esl, Estar, Ecolon. cbv iota.
+  destruct (token_cut token rest0 Esl) as (Hft & Hsk & Hpath & Hns & Hse & _). cbv zeta in Hft, Hsk.
+  rewrite Hft, Hsk.
+  set (seg0 := fst (take_seg rest0)) in *. set (remaining := snd (take_seg rest0)) in *.
+  assert (Hrest : rest0 = seg0 ++ remaining) by apply take_seg_app.
+  assert (Hinseg : forall b, has_slash b = false ->
+            parse2 (mode true) (b ++ remaining) = on_parse (app (lits b)) (fun ks => ks) (parse2 (mode true) remaining))
+    by (intros b Hb; apply parse2_inseg; exact Hb).
+  destruct (negb ins && match token :: seg0 with
+                        | c1 :: c2 :: _ => Ascii.eqb c1 ch_bslash && is_special c2
+                        | _ => false
+                        end) eqn:Eesc.
+  - (* an escaped first byte *)
+    apply andb_true_iff in Eesc as [Ei Eesc]. apply negb_true_iff in Ei. subst ins.
+    destruct seg0 as [|c2 seg1] eqn:Eseg; [discriminate|].
+    apply andb_true_iff in Eesc as [Eb Esp]. apply Ascii.eqb_eq in Eb. subst token.
+    cbn [skipn]. rewrite (is_special_not_slash c2 Esp). cbn [negb].
+    cbn [has_slash] in Hns. apply orb_false_iff in Hns as [_ Hns1].
+    pose proof (static_step f n wk c2 seg1 remaining true (fun split => skipn (S split) (ch_bslash :: rest0)) IH Hwf) as HS.
+    cbv zeta in HS.
+    assert (HS' := HS
+      ltac:(intros a' b H; rewrite Hrest, H in Hlen; cbn [app length] in Hlen; repeat rewrite app_length in Hlen; repeat rewrite app_length; lia)
+      ltac:(intros a' b H; apply Hinseg; rewrite H, has_slash_app in Hns1; apply orb_false_iff in Hns1; tauto)
+      ltac:(intros a' b H; rewrite Hrest, H; cbn [app skipn]; rewrite <- app_assoc; apply skipn_app_exact)).
+    clear HS. cbn [mode].
+    replace (parse2 SegStart (ch_bslash :: rest0)) with
+      (on_parse (app (lits (c2 :: seg1))) (fun ks => ks) (parse2 InSeg remaining)).
+    2:{ rewrite Hrest. cbn [app]. rewrite (parse2_segstart_escape c2 (seg1 ++ remaining) Esp).
+        rewrite (parse2_inseg seg1 remaining Hns1). destruct (parse2 InSeg remaining) as [[p ks]|]; reflexivity. }
+    cbn [mode] in HS'. destruct (parse2 InSeg remaining) as [[q_rem ks]|]; cbn [on_parse]; exact HS'.
+  - (* the token as written *)
+    rewrite Esl. cbn [negb].
+    pose proof (static_step f n wk token seg0 remaining true (fun split => skipn split (token :: rest0)) IH Hwf) as HS.
+    cbv zeta in HS.
+    assert (HS' := HS
+      ltac:(intros a' b H; rewrite Hrest, H in Hlen; repeat rewrite app_length in Hlen; repeat rewrite app_length; lia)
+      ltac:(intros a' b H; apply Hinseg; rewrite H, has_slash_app in Hns; apply orb_false_iff in Hns; tauto)
+      ltac:(intros a' b H; rewrite Hrest, H; cbn [skipn]; rewrite <- app_assoc; apply skipn_app_exact)).
+    clear HS.
+    replace (parse2 (mode ins) (token :: rest0)) with
+      (on_parse (app (lits (token :: seg0))) (fun ks => ks) (parse2 InSeg remaining)).
+    2:{ assert (Hin : parse2 InSeg (token :: rest0) = on_parse (app (lits (token :: seg0))) (fun ks => ks) (parse2 InSeg remaining)).
+        { rewrite Hrest. change (token :: seg0 ++ remaining) with ((token :: seg0) ++ remaining).
+          apply parse2_inseg. cbn [has_slash]. rewrite Esl, Hns. reflexivity. }
+        rewrite <- Hin. destruct ins; [reflexivity|]. cbn [mode negb andb] in *.
+        symmetry. apply parse2_segstart_plain; try assumption.
+        destruct (Ascii.eqb token ch_bslash) eqn:Eb; [right | left; reflexivity].
+        destruct seg0 as [|c2 seg1] eqn:Eseg.
+        - rewrite Hrest. cbn [app]. destruct Hse as [->|[r' ->]]; [exact I | reflexivity].
+        - rewrite Hrest. cbn [app]. cbn [andb] in Eesc. exact Eesc. }
+    cbn [mode] in HS'. destruct (parse2 InSeg remaining) as [[q_rem ks]|]; cbn [on_parse]; exact HS'.
+Qed.
+
+(** *** all cases *)
+Theorem add_node_spec : forall f, spec_at f.
+Proof.
+  induction f as [|f IH]; intros n path wk ins Hwf Hlen; [lia|].
+  destruct path as [|token rest0]; [apply add_spec_nil; exact Hwf|].
+  cbn [length] in Hlen. assert (Hl : length rest0 < f) by lia.
+  destruct (Ascii.eqb token ch_slash) eqn:Esl.
+  { apply Ascii.eqb_eq in Esl. subst token. apply add_spec_cons_slash; assumption. }
+  destruct (negb ins && Ascii.eqb token ch_star) eqn:Es.
+  { apply andb_true_iff in Es as [Ei Es]. apply negb_true_iff in Ei. apply Ascii.eqb_eq in Es. subst ins token.
+    apply add_spec_cons_star. exact Hwf. }
+  destruct (negb ins && Ascii.eqb token ch_colon) eqn:Ec.
+  { apply andb_true_iff in Ec as [Ei Ec]. apply negb_true_iff in Ei. apply Ascii.eqb_eq in Ec. subst ins token.
+    apply add_spec_cons_colon; assumption. }
+  apply add_spec_cons_static; assumption.
+Qed.
+
 End AddSpec.
+
+(** ** Add on the tree and on the machine *)
+
+Section AddRefines.
+Variable V : Type.
+Variable can_add : list V -> V -> bool.
+Notation tree := (tree V).
+Notation db := (db V).
+
+(** one Add: same kind of result; on success the invariant is kept and the new tree
+    holds the entries of the machine's new index *)
+Theorem tree_add_refines (t : tree) (e : str) (v : V) (flag : bool) :
+  wfb t = true ->
+  tkind V (tree_add can_add t e v flag) = Some (akind V (add_expr can_add (abs t) e v flag)) /\
+  forall t', tree_add can_add t e v flag = TOk t' ->
+    wfb t' = true /\
+    exists d', add_expr can_add (abs t) e v flag = AOk d' /\ same_entries V (abs t') d'.
+Proof.
+  intro Hwf. unfold tree_add, add_expr.
+  pose proof (add_node_spec V can_add v flag (S (S (length e))) t e [] false Hwf ltac:(lia)) as H.
+  unfold add_spec in H. cbn [mode] in H. unfold parse_expr. unfold parse2 in H.
+  destruct (parse_go SegStart e) as [[[p cur] ks]|].
+  2:{ rewrite H. split; [reflexivity | discriminate]. }
+  cbv zeta in H. cbn [app] in H. destruct H as [Hk Hok].
+  rewrite add_kind_machine, ends_catchall_C. split; [exact Hk|].
+  intros t' Ht'. destruct (Hok t' Ht') as (Hw & _ & Hu). split; [exact Hw|].
+  pose proof (add_assoc V can_add (abs t) p ks v flag) as Ha.
+  pose proof (add_kind_machine V can_add (abs t) p ks v flag) as Hkm.
+  rewrite Ht' in Hk. cbn [tkind] in Hk. inversion Hk as [Hk'].
+  rewrite ends_catchall_C, <- Hk' in Hkm.
+  destruct (add can_add (abs t) p ks v flag) as [d'| |]; try discriminate.
+  exists d'. split; [reflexivity|]. intro r. rewrite (Hu r), (Ha r), upd_eq, ends_catchall_C. reflexivity.
+Qed.
+
+(** the machine's add only looks at the entries *)
+Lemma add_same_entries (d1 d2 : db) p ks v bt :
+  same_entries V d1 d2 ->
+  akind V (add can_add d1 p ks v bt) = akind V (add can_add d2 p ks v bt) /\
+  forall d1' d2', add can_add d1 p ks v bt = AOk d1' -> add can_add d2 p ks v bt = AOk d2' -> same_entries V d1' d2'.
+Proof.
+  intro H. split.
+  - rewrite !add_kind_machine, (H p). reflexivity.
+  - intros d1' d2' H1 H2 r.
+    pose proof (add_assoc V can_add d1 p ks v bt) as A1. rewrite H1 in A1.
+    pose proof (add_assoc V can_add d2 p ks v bt) as A2. rewrite H2 in A2.
+    rewrite (A1 r), (A2 r), (H p), (H r). reflexivity.
+Qed.
+
+(** a sequence of Adds on the tree (a failed Add leaves it unchanged) *)
+Definition tree_step (t : tree) (a : addop V) : tree :=
+  match tree_add can_add t (ao_expr a) (ao_val a) (ao_bt a) with TOk t' => t' | _ => t end.
+
+Definition tree_load_from (t : tree) (l : list (addop V)) : tree := fold_left tree_step l t.
+Definition tree_load (l : list (addop V)) : tree := tree_load_from empty_tree l.
+
+Lemma step_same_entries (t : tree) (d : db) a :
+  wfb t = true -> same_entries V (abs t) d ->
+  wfb (tree_step t a) = true /\ same_entries V (abs (tree_step t a)) (step can_add d a).
+Proof.
+  intros Hwf Hs. unfold tree_step, step.
+  destruct (tree_add_refines t (ao_expr a) (ao_val a) (ao_bt a) Hwf) as [Hk Hok].
+  unfold add_expr in *. destruct (parse_expr (ao_expr a)) as [[p ks]|].
+  - destruct (add_same_entries (abs t) d p ks (ao_val a) (ao_bt a) Hs) as [Hk2 Hs2].
+    destruct (tree_add can_add t (ao_expr a) (ao_val a) (ao_bt a)) as [t'| | |] eqn:Et; cbn [tkind] in Hk.
+    + destruct (Hok t' eq_refl) as (Hw & d' & Hd' & Hse). split; [exact Hw|].
+      rewrite Hd' in Hk2. cbn [akind] in Hk2.
+      destruct (add can_add d p ks (ao_val a) (ao_bt a)) as [d2'| |] eqn:Ed; try discriminate.
+      intro r. rewrite (Hse r). apply (Hs2 d' d2' Hd' eq_refl).
+    + split; [exact Hwf|]. inversion Hk as [Hk']. rewrite <- Hk' in Hk2.
+      destruct (add can_add d p ks (ao_val a) (ao_bt a)); try discriminate. exact Hs.
+    + split; [exact Hwf|]. inversion Hk as [Hk']. rewrite <- Hk' in Hk2.
+      destruct (add can_add d p ks (ao_val a) (ao_bt a)); try discriminate. exact Hs.
+    + discriminate.
+  - destruct (tree_add can_add t (ao_expr a) (ao_val a) (ao_bt a)) as [t'| | |]; cbn [tkind akind] in Hk; try discriminate.
+    split; assumption.
+Qed.
+
+Theorem tree_load_from_refines l : forall (t : tree) (d : db),
+  wfb t = true -> same_entries V (abs t) d ->
+  wfb (tree_load_from t l) = true /\ same_entries V (abs (tree_load_from t l)) (load_from can_add d l).
+Proof.
+  induction l as [|a r IH]; intros t d Hwf Hs; [split; assumption|].
+  cbn [tree_load_from load_from fold_left]. destruct (step_same_entries t d a Hwf Hs) as [Hw' Hs'].
+  apply IH; assumption.
+Qed.
+
+(** for every sequence of Adds the compressed tree is well-formed and holds exactly
+    the entries of the machine's index *)
+Theorem tree_load_refines l :
+  wfb (tree_load l) = true /\ Permutation (abs (tree_load l)) (load can_add l).
+Proof.
+  destruct (tree_load_from_refines l empty_tree [] eq_refl ltac:(intro r; reflexivity)) as [Hw Hs].
+  split; [exact Hw|]. apply same_assoc_perm; [apply abs_NoDup; exact Hw | apply load_wf | exact Hs].
+Qed.
+
+(** hence findNode on the tree built by any sequence of Adds answers like the
+    machine on the index built by the same Adds *)
+Theorem tree_load_find (m : matcher V) fx l path :
+  tree_find fx fx true m (tree_load l) path = find_in (negb fx) (load can_add l) path m.
+Proof.
+  destruct (tree_load_refines l) as [Hw HP].
+  rewrite (tree_find_refines V m fx _ path Hw). apply find_in_perm; [exact HP | apply abs_NoDup; exact Hw].
+Qed.
+
+End AddRefines.
